@@ -509,7 +509,7 @@ def gen_edit(rng, ref, frag, pool, cfg):
     feats = list(rm.walk(new["root"]))
     used = [f["n"] for f, _, _ in feats]
     free = [n for n in pool if n not in used]
-    kinds = list(EDIT_KINDS)
+    kinds = list(cfg.get("only_kinds") or EDIT_KINDS)
     rng.shuffle(kinds)
     for kind in kinds:
         if kind == "rename" and free:
